@@ -350,6 +350,79 @@ Example C03_enable_freezes_memory_hyps :
   mem_commit [5; 0] (snd (mem_sync ex_tab (enable_mem ex_ctl m) 1%nat [5; 0] (st, []))) = [5; 0].
 Proof. repeat split; vm_compute; reflexivity. Qed.
 
+(* ================= DomainRenamer on fragment TREES with memories, whole traces =================
+   A domain is its clock / reset configuration, an event writes clock and reset SIGNALS: when the target domain has the
+   configuration of the renamed one, "a's events applied at b" is the same event list.  `mrun` is the engine with
+   memories: the states hold every signal (registers, comb signals, read-port data) and every memory row. *)
+(* any renaming that merges nothing inside one fragment or one memory and lands on equally configured domains *)
+Theorem C03_domain_renamer_tree_spec tab doms doms' rho f n U :
+  no_merge rho f ->
+  (forall d, In d U -> (rename_dom rho d = 0%nat <-> d = 0%nat)) ->
+  (forall d, In d U -> d <> 0%nat -> doms' (rename_dom rho d) = doms d) ->
+  (forall p, In p (flatten f) -> In (fst p) U) ->
+  (forall m d, In m (frag_mems f) -> In d (mem_port_doms m) -> In d U) ->
+  (forall m d1 d2, In m (frag_mems f) -> In d1 (mem_port_doms m) -> In d2 (mem_port_doms m) ->
+     rename_dom rho d1 = rename_dom rho d2 -> d1 = d2) ->
+  let D := mk_design tab doms f n in
+  let D' := mk_design tab doms' (domain_renamer rho f) n in
+  minit D' (frag_mems (domain_renamer rho f)) = minit D (frag_mems f) /\
+  forall evs s, mrun D' (frag_mems (domain_renamer rho f)) evs s = mrun D (frag_mems f) evs s.
+Proof. exact (rename_tree_trace tab doms doms' rho f n U). Qed.
+Print Assumptions C03_domain_renamer_tree_spec.
+
+(* renaming a to a FRESH domain b that has a's clock / reset configuration: trees of any depth, memory ports in a *)
+Theorem C03_domain_renamer_fresh_domain tab doms doms' a b f n U :
+  a <> 0%nat -> b <> 0%nat -> ~ In b U -> frag_dicts_ok f ->
+  (forall p, In p (flatten f) -> In (fst p) U) ->
+  (forall st e, In st (frag_nodes f) -> In e st -> In (fst e) U) ->
+  (forall m d, In m (frag_mems f) -> In d (mem_port_doms m) -> In d U) ->
+  doms' b = doms a -> (forall d, In d U -> d <> a -> doms' d = doms d) ->
+  let D := mk_design tab doms f n in
+  let D' := mk_design tab doms' (domain_renamer [(a, b)] f) n in
+  minit D' (frag_mems (domain_renamer [(a, b)] f)) = minit D (frag_mems f) /\
+  forall evs s, mrun D' (frag_mems (domain_renamer [(a, b)] f)) evs s = mrun D (frag_mems f) evs s.
+Proof. exact (rename_fresh_tree_trace tab doms doms' a b f n U). Qed.
+Print Assumptions C03_domain_renamer_fresh_domain.
+
+(* renaming a ONTO an existing domain b of identical configuration — PARTIAL merge case: proved when no single fragment
+   and no single memory holds logic of both a and b (their processes then stay separate processes of domain b).
+   Not proved: a and b statements of ONE fragment concatenated into one process, ports of one memory merged. *)
+Theorem C03_domain_renamer_onto_existing_partial tab doms a b f n U :
+  a <> 0%nat -> b <> 0%nat -> doms b = doms a -> frag_dicts_ok f ->
+  (forall st, In st (frag_nodes f) -> ~ (In a (map fst st) /\ In b (map fst st))) ->
+  (forall m, In m (frag_mems f) -> ~ (In a (mem_port_doms m) /\ In b (mem_port_doms m))) ->
+  (forall p, In p (flatten f) -> In (fst p) U) ->
+  (forall m d, In m (frag_mems f) -> In d (mem_port_doms m) -> In d U) ->
+  let D := mk_design tab doms f n in
+  let D' := mk_design tab doms (domain_renamer [(a, b)] f) n in
+  minit D' (frag_mems (domain_renamer [(a, b)] f)) = minit D (frag_mems f) /\
+  forall evs s, mrun D' (frag_mems (domain_renamer [(a, b)] f)) evs s = mrun D (frag_mems f) evs s.
+Proof. exact (rename_onto_existing_tree_trace tab doms a b f n U). Qed.
+Print Assumptions C03_domain_renamer_onto_existing_partial.
+
+(* a tree of depth 2 with a memory whose ports are in the renamed domain 1; fresh target 2 *)
+Definition ex_mem : meminst :=
+  MI (Sh 4 false) 2 [5] [WP 1 (ESig 5 (Sh 1 false)) (ESig 6 s4) (ESig 7 (Sh 1 false))]
+     [RP 1 (ESig 5 (Sh 1 false)) (ESig 9 s4) (ESig 8 (Sh 1 false)) [0%nat]].
+Definition ex_tree : frag := Frag [(1%nat, [inc 2])] [] [Frag [(1%nat, [inc 3])] [ex_mem] []].
+Example C03_domain_renamer_fresh_hyps :
+  frag_dicts_ok ex_tree /\ ~ In 2%nat [1%nat] /\
+  (forall p, In p (flatten ex_tree) -> In (fst p) [1%nat]) /\
+  (forall st e, In st (frag_nodes ex_tree) -> In e st -> In (fst e) [1%nat]) /\
+  (forall m d, In m (frag_mems ex_tree) -> In d (mem_port_doms m) -> In d [1%nat]) /\
+  ex_doms 2%nat = ex_doms 1%nat /\
+  map fst (flatten (domain_renamer [(1%nat, 2%nat)] ex_tree)) = [2%nat; 2%nat] /\
+  map mem_port_doms (frag_mems (domain_renamer [(1%nat, 2%nat)] ex_tree)) = [[2%nat; 2%nat]].
+Proof.
+  repeat split; try reflexivity.
+  - destruct H as [<-|[<-|[]]]; repeat constructor; simpl; intuition.
+  - destruct H as [<-|[<-|[]]]; intros e [<-|[]]; discriminate.
+  - simpl. intros [H|[]]. discriminate.
+  - intros p [<-|[<-|[]]]; simpl; auto.
+  - intros st e [<-|[<-|[]]] [<-|[]]; simpl; auto.
+  - intros m d [<-|[]]. simpl. intuition.
+Qed.
+
 (* ================= translator unit "xfrm": the source text of hdl/_xfrm.py, regenerated on every run ================= *)
 (* Gen/XfrmGen.v is produced from the CURRENT text of amaranth/hdl/_xfrm.py (and Fragment.add_statements of hdl/_ir.py)
    by translator/unit_xfrm.py; the theorems below say that the regenerated functions are the hand-written model of
